@@ -34,16 +34,34 @@ class AnyOf:
         return '[%s]' % ','.join(map(str, self.members))
 
 
-def pm_match(pm, x, oracle):
-    """does position matcher pm accept code point x"""
+class Range:
+    """a range lo-hi inside a bracketed class whose width the path condition does not fix"""
+    __slots__ = ('lo', 'hi')
+
+    def __init__(self, lo, hi):
+        self.lo, self.hi = lo, hi
+
+    def __repr__(self):
+        return '%s-%s' % (self.lo, self.hi)
+
+
+def pm_match(pm, x, oracle, fold=None):
+    """does position matcher pm accept code point x; fold: under (?i) a literal matches every member of its simple-case-folding
+    orbit -- fold maps a code point to its orbit representative"""
     if isinstance(pm, Cls):
         if oracle is None:
             raise Inconclusive('shorthand class without oracle')
+        if fold is not None:
+            raise Inconclusive('shorthand class under (?i)')
         t = in_ranges(x, oracle[pm.name])
         return z3.Not(t) if pm.neg else t
+    if isinstance(pm, Range):
+        if fold is not None:
+            raise Inconclusive('class range under (?i)')
+        return z3.And(z3.ULE(pm.lo, x), z3.ULE(x, pm.hi))
     if isinstance(pm, AnyOf):
-        return z3.Or(*[pm_match(m, x, oracle) for m in pm.members]) if pm.members else z3.BoolVal(False)
-    return x == pm
+        return z3.Or(*[pm_match(m, x, oracle, fold) for m in pm.members]) if pm.members else z3.BoolVal(False)
+    return (x == pm) if fold is None else (fold(x) == fold(pm))
 
 
 def parse_ast(parser):
@@ -148,11 +166,11 @@ def ordered_words(ast, limit=4000):
     raise Inconclusive('unknown AST node %r' % (kind,))
 
 
-def word_match(word, text, s, oracle):
+def word_match(word, text, s, oracle, fold=None):
     """word matches text[s : s+len(word)] (False if it does not fit)"""
     if s + len(word) > len(text):
         return z3.BoolVal(False)
-    return z3.And(*[pm_match(pm, text[s + i], oracle) for i, pm in enumerate(word)]) if word else z3.BoolVal(True)
+    return z3.And(*[pm_match(pm, text[s + i], oracle, fold) for i, pm in enumerate(word)]) if word else z3.BoolVal(True)
 
 
 def candidates(words, text, oracle, start_anchor=False, end_anchor=False, from_pos=0):
